@@ -11,17 +11,23 @@ WHAT = {
  'exec_no_such_index': 'the generated SQL fails to execute with "no such index": a ChangeMeta/ChangeField drops an index that an earlier rebuild in the same evolution already lost, or resolves the wrong name from the scanned DatabaseState (e.g. DROP INDEX "ck_cnt" for ChangeField(db_index=False) on a model with a check constraint)',
  'm2m_columns_after_rename_model': 'RenameModel of the target of a ManyToManyField leaves the columns/indexes/foreign keys of the auto-created M2M table under the old model name (anchor_id) where a freshly created schema uses the new one (base_id)',
  'merged_changefield_initial': 'two ChangeFields of one field in one evolution are merged by the optimiser into one that carries the *last* initial value: ChangeField(null=False, initial=A) followed by ChangeField(max_length=.., initial=B) replaces the NULLs with B instead of the declared A (one-at-a-time application gives A)',
+ 'generator_crash': 'SQL generation crashes with AssertionError (change_column_attr_unique: assert index_state) for ChangeField(unique=False) after a RenameModel in the same evolution: the DatabaseState still tracks the unique index under the old table name',
+ 'rebuild_drops_field_check': 'after a SQLite table rebuild the CHECK ("col" >= 0) that Django declares for PositiveIntegerField columns is gone (build_column_schema does not emit the field check), so the evolved table accepts negative values that a freshly created one rejects',
  'exec_other': 'the generated SQL fails to execute: a merged rebuild re-creates a constraint that a later ChangeMeta in the same evolution had already removed, naming a column deleted in between ("expressions prohibited in PRIMARY KEY and UNIQUE constraints")',
  'index_bookkeeping': 'per-field index changes are lost or duplicated when they are merged into a rebuild started by another operation, follow a RenameModel, or meet an existing Meta index on the same column (stale MockModel / DatabaseState index bookkeeping): ChangeField(db_index=...) has no effect or unique indexes are left behind',
 }
 for r in v:
     kinds = set(k.split(':')[0] for k in r['diff_kinds'])
-    if 'data' in kinds:
+    if 'gen' in kinds:
+        f = 'generator_crash'
+    elif 'data' in kinds:
         f = 'merged_changefield_initial'
     elif 'exec' in kinds:
         f = 'exec_no_such_index' if 'no such index' in r['detail'] else 'exec_other'
     elif 'columns' in kinds or 'tables' in kinds:
         f = 'm2m_columns_after_rename_model'
+    elif 'check_missing' in kinds and r['base'] == 'types':
+        f = 'rebuild_drops_field_check'
     elif r.get('region') == 'c01_rebuild_drops_meta_indexes':
         f = 'rebuild_drops_meta'
     else:
